@@ -69,6 +69,7 @@ class SIdSeq(Sym):
 
     def __init__(self, ex, fs, p, label="job_ids"):
         self.n = z3.Int(ex.fresh_name("n_ids"))
+        ex.lengths.append(self.n)
         self.at = z3.Function(ex.fresh_name("idat"), z3.IntSort(), Id)
         self.label = label
         a, b = z3.Ints("sa sb")
@@ -906,7 +907,7 @@ def stub_update_in_memory_cache(interp, b):
     ex, ctx = interp.ex, interp.ctx
     proj = b["self"]
     p, c, fs = proj.p, proj.fields["_sp_cache"], ctx.fs
-    ex.assumptions_used.add("_update_in_memory_cache contract (bounded check only): afterwards the in-memory cache has exactly the workspace ids, each entry hashing to its id")
+    ex.assumptions_used.add("_update_in_memory_cache through its contract (UpdateInMemoryCache, contracts/memcache.py): afterwards the in-memory cache has exactly the workspace ids, each entry hashing to its id")
     nd = z3.Array(ex.fresh_name("cdom_m"), Id, z3.BoolSort())
     nv = z3.Array(ex.fresh_name("cval_m"), Id, SPv)
     dom0, val0 = c.dom, c.val
